@@ -442,6 +442,36 @@ Proof.
     destruct (cstep tol (fst (cstep tol c (Some y) 1)) (Some x) 1) as [r2 b2]. cbn [fst snd] in *. subst. reflexivity.
 Qed.
 
+(* the refined curve is the insertion chain of ANY schedule that rearranges X (grouped stages, all accepted) *)
+Lemma refined_as_chain (tol tolm : R) (p : nat) (U : list R) (P : list (list R)) (X : list R) (dim : nat) (sched : list (R * nat)) :
+  (1 <= p)%nat -> sortedR U -> (p < length P)%nat -> length U = (length P + p + 1)%nat ->
+  X <> [] -> sortedR X -> knR U p <= nth 0 X 0 -> nth (length X - 1) X 0 < knR U (length P) ->
+  (forall x y, In x X -> In y (X ++ U) -> x < y -> tol <= y - x) ->
+  (forall x, In x X -> (count_occ Req_EM_T (X ++ U) x <= p)%nat) ->
+  (forall i, (i < length P)%nat -> length (getp P i) = dim) ->
+  0 <= tolm -> (forall x y, In x X -> In y (X ++ U) -> Rabs (x - y) <= tolm -> y = x) ->
+  Permutation (expand sched) X ->
+  chain tolm dim (mkC p U P) (rev sched) /\
+  mkC p (snd (refine_pts Rops tol p U P X)) (fst (refine_pts Rops tol p U P X)) = fold_left (insS tolm) (rev sched) (mkC p U P).
+Proof.
+  intros H1 H2 H3 H4 H5 H6 H7 H8 H9 H10 H11 Htm Hsepm PX.
+  destruct (refine_is_insert_chain_sec tol tolm p U P X dim H1 H2 H3 H4 H5 H6 H7 H8 (conj H9 (conj H10 H11)) Htm Hsepm) as [_ E].
+  rewrite E. cbn [fst snd]. set (c0 := mkC p U P) in *.
+  assert (G0 : Good tolm dim c0 X).
+  { split; [split; [split; [exact H2|split; [exact H3|exact H4]]|exact H11]|]. cbn [c0 c_p c_U c_P]. split; [|split; assumption].
+    intros x Hx. destruct (X_bounds p U P X H1 H3 H4 H6 x Hx). lra. }
+  assert (PR : Permutation (rev X) (rev (expand sched))).
+  { eapply Permutation_trans; [apply Permutation_sym, Permutation_rev|].
+    eapply Permutation_trans; [apply Permutation_sym; exact PX|apply Permutation_rev]. }
+  assert (GR : Good tolm dim c0 (rev X)) by (apply (Good_perm tolm dim c0 X); [apply Permutation_rev|exact G0]).
+  rewrite (perm_fold tolm dim Htm (rev X) (rev (expand sched)) PR c0 GR).
+  pose proof (good_chain tolm dim Htm _ c0 (Good_perm tolm dim c0 _ _ PR GR)) as C.
+  rewrite singles_rev_expand in *.
+  destruct (group_chain tolm dim Htm (rev sched) c0 C) as [C' E']. rewrite <- E'. split; [exact C'|].
+  set (cF := fold_left (insS tolm) (rev sched) c0).
+  pose proof (fold_insS_p tolm (rev sched) c0) as Hp. fold cF in Hp. cbn [c0 c_p] in Hp. destruct cF as [p' U' P']. cbn [c_p c_U c_P] in *. subst p'. reflexivity.
+Qed.
+
 (* [G] THE THEOREM, ANY ORDER.  Hypotheses of KnotRemMoreRefine.remove_after_refine_sched, but the schedule only has to be a
    REARRANGEMENT of X: Permutation (expand sched) X.  So the refined knots may be removed in any order whatsoever, one at a time
    or several copies of a knot per call; the calls never raise, the original curve record comes back, and every intermediate
@@ -513,6 +543,53 @@ Proof.
   rewrite expand_singles in H. specialize (H PX). cbv zeta in H.
   destruct (refine_pts Rops tol p U P X) as [Q V]. destruct H as [H _].
   unfold singles in H. rewrite fold_left_map_ in H. exact H.
+Qed.
+
+(* [G] removing only SOME of the refined knots (any of them, any order, any grouping: the schedule s1), the others (the sorted
+   list X') staying: the result is exactly the curve A5.4 returns for X' *)
+Theorem remove_some_after_refine (tol tolm tol2 : R) (p : nat) (U : list R) (P : list (list R)) (X X' : list R) (dim : nat)
+    (s1 : list (R * nat)) :
+  (1 <= p)%nat -> sortedR U -> (p < length P)%nat -> length U = (length P + p + 1)%nat ->
+  X <> [] -> sortedR X -> knR U p <= nth 0 X 0 -> nth (length X - 1) X 0 < knR U (length P) ->
+  (forall x y, In x X -> In y (X ++ U) -> x < y -> tol <= y - x) ->
+  (forall x, In x X -> (count_occ Req_EM_T (X ++ U) x <= p)%nat) ->
+  (forall i, (i < length P)%nat -> length (getp P i) = dim) ->
+  0 <= tolm -> (forall x y, In x X -> In y (X ++ U) -> Rabs (x - y) <= tolm -> y = x) -> 0 <= tol2 ->
+  X' <> [] -> sortedR X' -> Permutation (expand s1 ++ X') X ->
+  let rm := fun (c : curve (T:=R)) (e : R * nat) => remove_knot_curve Rops tolm tol2 true c [Some (fst e)] [Z.of_nat (snd e)] in
+  fold_left (fun c e => fst (rm c e)) s1 (mkC p (snd (refine_pts Rops tol p U P X)) (fst (refine_pts Rops tol p U P X)))
+  = mkC p (snd (refine_pts Rops tol p U P X')) (fst (refine_pts Rops tol p U P X')) /\
+  (forall sa e sb, s1 = sa ++ e :: sb ->
+     snd (rm (fold_left (fun c e => fst (rm c e)) sa (mkC p (snd (refine_pts Rops tol p U P X)) (fst (refine_pts Rops tol p U P X)))) e) = false).
+Proof.
+  intros H1 H2 H3 H4 H5 H6 H7 H8 H9 H10 H11 Htm Hsepm Ht2 H5' H6' PX. cbv zeta.
+  assert (ES : expand (s1 ++ singles X') = expand s1 ++ X').
+  { unfold expand at 1. rewrite flat_map_app. fold (expand s1). fold (expand (singles X')). rewrite expand_singles. reflexivity. }
+  destruct (refined_as_chain tol tolm p U P X dim (s1 ++ singles X') H1 H2 H3 H4 H5 H6 H7 H8 H9 H10 H11 Htm Hsepm
+              ltac:(rewrite ES; exact PX)) as [C E].
+  assert (HinX : forall x, In x X' -> In x X).
+  { intros x Hx. apply (Permutation_in _ PX). apply in_or_app. right. exact Hx. }
+  assert (HL' : (1 <= length X')%nat) by (destruct X'; [congruence|cbn; lia]).
+  assert (HinXU : forall y, In y (X' ++ U) -> In y (X ++ U)).
+  { intros y Hy. apply in_app_or in Hy. apply in_or_app. destruct Hy as [Hy|Hy]; [left; apply HinX; exact Hy|right; exact Hy]. }
+  destruct (refined_as_chain tol tolm p U P X' dim (singles X') H1 H2 H3 H4 H5' H6') as [_ E']; try assumption.
+  - assert (Hin0 : In (nth 0 X' 0) X) by (apply HinX; apply nth_In; lia).
+    destruct (X_bounds p U P X H1 H3 H4 H6 _ Hin0). lra.
+  - assert (Hin1 : In (nth (length X' - 1) X' 0) X) by (apply HinX; apply nth_In; lia).
+    destruct (X_bounds p U P X H1 H3 H4 H6 _ Hin1). lra.
+  - intros x y Hx Hy. apply H9; [apply HinX; exact Hx|apply HinXU; exact Hy].
+  - intros x Hx. pose proof (H10 x (HinX x Hx)) as Hc. rewrite count_occ_app in *.
+    pose proof (proj1 (Permutation_count_occ Req_EM_T _ _) PX x) as Hpc. rewrite count_occ_app in Hpc. lia.
+  - intros x y Hx Hy. apply Hsepm; [apply HinX; exact Hx|apply HinXU; exact Hy].
+  - rewrite expand_singles. apply Permutation_refl.
+  - rewrite E, E'.
+    assert (Efun : forall l c, fold_left (fun c e => fst (remove_knot_curve Rops tolm tol2 true c [Some (fst e)] [Z.of_nat (snd e)])) l c
+                             = fold_left (remS tolm tol2) l c).
+    { intros l c. apply fold_left_ext. intros c1 e. rewrite remove_knot_curve_steps. reflexivity. }
+    split.
+    + rewrite Efun. apply (rem_chain_prefix tolm tol2 dim Htm Ht2 s1 (singles X') (mkC p U P) C).
+    + intros sa e sb ES1. rewrite Efun, remove_knot_curve_steps. rewrite ES1 in C |- *. rewrite <- app_assoc in C |- *. cbn [app] in C |- *.
+      apply (rem_chain_flag tolm tol2 dim Htm Ht2 sa e (sb ++ singles X') (mkC p U P) C).
 Qed.
 
 (* [G] the insertion side: the curve obtained by inserting the knots of X one at a time with operations.insert_knot does not depend
@@ -619,3 +696,4 @@ Print Assumptions refine_is_insert_chain_any_order.
 Print Assumptions remove_after_knot_refinement_any_order.
 Print Assumptions remove_after_refine_curve_any_order.
 Print Assumptions insert_knot_curve_commute.
+Print Assumptions remove_some_after_refine.
